@@ -174,9 +174,33 @@ def _fresh_idgen():
         i += 1
 
 
+_GEN_BASES = None
+
+
+def release_generated_classes():
+    """plasTeX creates classes with type(name, ...) where `name` is a Token (a str subclass that points to its
+    document).  CPython keeps that object as the class name without reporting it to the cycle collector, so every
+    document that executed \\def/\\newcommand/\\newif/... would stay alive forever and a long-lived worker grows by
+    ~100 KB per case.  Give such classes a plain-str name so the previous documents can be collected.  (Harness
+    hygiene only: not a property of plasTeX.)"""
+    global _GEN_BASES
+    import plasTeX
+    if _GEN_BASES is None:
+        _GEN_BASES = [plasTeX.Definition, plasTeX.NewCommand, plasTeX.NewIf, plasTeX.IfTrue, plasTeX.IfFalse,
+                      plasTeX.CountCommand, plasTeX.DimenCommand, plasTeX.GlueCommand, plasTeX.MuGlueCommand,
+                      plasTeX.MuDimenCommand, plasTeX.UnrecognizedMacro, plasTeX.TheCounter, plasTeX.Command]
+    for base in _GEN_BASES:
+        for c in base.__subclasses__():
+            if type(c.__name__) is not str:
+                q = str(c.__qualname__)
+                c.__name__ = str(c.__name__)
+                c.__qualname__ = q
+
+
 def reset():
     """Restore interpreter-wide state to the pristine snapshot (call between cases); the generator of automatic
     identifiers is restarted too, so that two runs of the same case spell generated ids identically."""
     import plasTeX
     plasTeX.idgen = _fresh_idgen()
+    release_generated_classes()
     return pristine().restore()
